@@ -456,6 +456,25 @@ def replay(ctx, obligations, sig_prefix):
             nsys += len(chunk)
             nsysev += len(events)
             if v["accepted"]:
+                if not getattr(ctx, "binding_selftests", None):
+                    def other_step(e):
+                        # an attempt starts with another time step than the one the time loop computed
+                        k = next((x for x in e if x["e"] == "Res" and x["dt"] > 1), None)
+                        if k is None:
+                            return False
+                        k["dt"] = k["dt"] - 1
+                    core.binding_selftest(ctx, "mtest/MTestSystemTrace", syscfg, events, other_step,
+                                          "a complete mtest log in which one attempt uses another time step than the time loop computed", dfs=True)
+
+                    def accepted_too_early(e):
+                        # convergence declared one iteration before the criteria were met
+                        i = next((k for k, x in enumerate(e) if x["e"] == "Conv" and x["k"] > 1 and e[k - 1]["e"] == "Iter"), None)
+                        if i is None:
+                            return False
+                        del e[i - 1]
+                        e[i - 1]["k"] -= 1
+                    core.binding_selftest(ctx, "mtest/MTestSystemTrace", syscfg, events, accepted_too_early,
+                                          "a complete mtest log in which a step converges on an iteration whose criteria were not met", dfs=True)
                 break
             pos, bad = 0, len(chunk) - 1
             for n, (ev, _) in enumerate(chunk):
